@@ -956,6 +956,7 @@ def parse_for(fields, text, index, *cwd):
     if flags & 2:
         sep += ','
     if fields['mode']['html']:
+        var = html.unescape(var)
         s = html.unescape(s)
         sep = html.unescape(sep)
         if fsep is not None:
@@ -1041,6 +1042,7 @@ def parse_foreach(writer, text, index, *cwd):
     if fsep is None:
         fsep = sep
     if entry_holder.fields['mode']['html']:
+        var = html.unescape(var)
         s = html.unescape(s)
         sep = html.unescape(sep)
         fsep = html.unescape(fsep)
